@@ -1,11 +1,135 @@
-(* Cancellation of a write between its two effects (src/blob/core.rs Blob::write):
-   [await] the blocking closure reserves the offset and appends the bytes (detached: it completes even if
-   the future is dropped) ; [no await] the header is pushed into the index.
-   Dropping the future while the closure is in flight leaves: bytes in the file, nothing in the index. *)
+(* Cancellation (dropping the future) of the public operations, at every suspension point.
+
+   The suspension structure is the one of the Rust code (src/storage/core.rs, src/blob/core.rs):
+
+   write   [await] ensure an active blob exists (blob creation: file created, header appended, synced; dropped
+                   there, one blob id is consumed and no blob is installed);
+           [await] duplicate check (reads only);
+           [await] the record append runs in a detached blocking closure: once started it completes even if the
+                   future is dropped; THEN (no await) the header is pushed into the in-memory index;
+                   notifications: await-free.
+   delete  the active blob first, exactly like a write of the marker (Blob::delete: load_index, append, push);
+           then ALL closed blobs holding the key CONCURRENTLY (FuturesUnordered), each one:
+           [await] load_index, [await] append of the marker (detached closure), (no await) push;
+           the deferred index dump is requested only after all of them completed.
+   close_active    [await] sync of the blob while it is still the active one; (no await) take + push.
+   restore_active  [await] load_index of the last closed blob, in place; (no await) pop + install.
+   create_active   blob creation as in write.
+   fsyncdata, reads, counts: no effect on the state of the model.
+
+   For each operation `cancel_outcomes K cfg s o` is the set of states a dropped future may leave, "not started"
+   (= s) and "completed" (= fst (step K cfg s o)) included. *)
 Require Import Pearl.Base.Prelude Pearl.Storage.Model Pearl.Storage.Spec.
 
+(* bytes of the record in the file, nothing in the index *)
 Definition append_unindexed (b : blob) (r : rec) : blob :=
   {| b_id := b_id b; b_recs := b_recs b ++ [r]; b_idx := b_idx b; b_ondisk := b_ondisk b; b_idxfile := b_idxfile b |}.
 
+(* a write dropped while its append is in flight *)
 Definition cancel_write_midway (s : storage) (r : rec) : storage :=
   match s_active s with Some b => upd_active s (Some (append_unindexed b r)) | None => s end.
+
+(* a blob creation dropped after the id was taken: the id is consumed, no blob is installed *)
+Definition burn_id (s : storage) : storage :=
+  {| s_active := s_active s; s_closed := s_closed s; s_next := s_next s + 1; s_corrupted := s_corrupted s;
+     s_alive := s_alive s; s_dump_req := s_dump_req s; s_aged := s_aged s; s_open := s_open s; s_f2 := s_f2 s |}.
+
+(* `f` applied to the last occupied slot (the one HierarchicalFilters::pop / pop_last would vacate), in place *)
+Fixpoint map_last_occupied (f : blob -> blob) (l : list (option blob)) : list (option blob) :=
+  match l with
+  | [] => []
+  | x :: r =>
+    match pop_last r with
+    | Some _ => x :: map_last_occupied f r
+    | None => match x with Some b => Some (f b) :: r | None => None :: r end
+    end
+  end.
+
+Section K.
+Variable K : N.
+Variable cfg : config.
+
+(* ---------- one blob during a delete: Blob::delete = load_index ; append (detached) ; push ---------- *)
+Inductive delete_stage (mk : rec) (b : blob) : blob -> Prop :=
+| ds_untouched : delete_stage mk b b
+| ds_loaded : delete_stage mk b (blob_load_index K b)                                  (* index loaded only *)
+| ds_bytes : delete_stage mk b (append_unindexed (blob_load_index K b) mk)            (* marker bytes, not indexed *)
+| ds_done : delete_stage mk b (fst (blob_append (blob_load_index K b) mk)).           (* fully processed *)
+
+(* the condition under which Blob::delete writes a marker (see blob_delete) *)
+Definition delete_applies (b : blob) (mk : rec) (oip : bool) : bool :=
+  negb oip || is_found (idx_get_latest (b_idx b) (r_key mk)).
+
+(* the closed blobs are processed concurrently: every slot is at its own stage *)
+Inductive slot_stage (mk : rec) : option blob -> option blob -> Prop :=
+| ss_vacant : slot_stage mk None None
+| ss_skip b : delete_applies b mk true = false -> slot_stage mk (Some b) (Some b)
+| ss_stage b b' : delete_applies b mk true = true -> delete_stage mk b b' -> slot_stage mk (Some b) (Some b').
+
+(* ---------- write ---------- *)
+Inductive write_partial (s : storage) (k : N) (meta : option N) (r : rec) : storage -> Prop :=
+| wp_create_dropped : s_active s = None -> write_partial s k meta r (burn_id s)
+| wp_created : write_partial s k meta r (ensure_active s)         (* dropped at the duplicate check *)
+| wp_bytes :                                                      (* dropped while the append is in flight *)
+    negb (c_dup cfg) && is_found (get_latest_entry (ensure_active s) k meta) = false ->
+    write_partial s k meta r (cancel_write_midway (ensure_active s) r).
+
+(* ---------- delete ---------- *)
+Definition delete_start (s : storage) (oip : bool) : storage := if oip then s else ensure_active s.
+
+(* the active blob has been processed completely (the closed blobs are started only then) *)
+Definition delete_active_done (s0 : storage) (mk : rec) (oip : bool) : storage :=
+  match s_active s0 with
+  | Some b => upd_active s0 (Some (fst (fst (blob_delete K b mk oip))))
+  | None => s0
+  end.
+
+Inductive delete_partial (s : storage) (mk : rec) (oip : bool) : storage -> Prop :=
+| dp_create_dropped : oip = false -> s_active s = None -> delete_partial s mk oip (burn_id s)
+| dp_started : delete_partial s mk oip (delete_start s oip)
+| dp_active b b' :                                                (* dropped while the active blob is processed *)
+    s_active (delete_start s oip) = Some b -> delete_applies b mk oip = true -> delete_stage mk b b' ->
+    delete_partial s mk oip (upd_active (delete_start s oip) (Some b'))
+| dp_closed c' :                                                  (* dropped while the closed blobs are processed *)
+    Forall2 (slot_stage mk) (s_closed (delete_start s oip)) c' ->
+    delete_partial s mk oip (upd_closed (delete_active_done (delete_start s oip) mk oip) c').
+
+(* ---------- lifecycle ---------- *)
+Inductive restore_partial (s : storage) : storage -> Prop :=
+| rp_loaded : s_active s = None ->
+    restore_partial s (upd_closed s (map_last_occupied (blob_load_index K) (s_closed s))).
+
+Inductive create_partial (s : storage) : storage -> Prop :=
+| cp_create_dropped : s_active s = None -> create_partial s (burn_id s).
+
+(* ---------- every public operation ---------- *)
+Definition public_op (o : op) : bool :=
+  match o with
+  | OWrite _ _ _ _ _ _ | ODelete _ _ _ _ _
+  | ORead _ | OReadWith _ _ | OContains _ | OReadAll _ | OReadAllDm _ | OCounts
+  | OCloseActive | OCreateActive | ORestoreActive => true
+  | _ => false
+  end.
+
+(* the key an operation is about *)
+Definition op_key (o : op) : option N :=
+  match o with
+  | OWrite k _ _ _ _ _ | ODelete k _ _ _ _ => Some k
+  | _ => None
+  end.
+
+(* states strictly between "not started" and "completed" *)
+Definition partial_outcomes (s : storage) (o : op) (s' : storage) : Prop :=
+  match o with
+  | OWrite k ts meta msize dlen dseed => write_partial s k meta (mk_rec k ts false meta msize dlen dseed) s'
+  | ODelete k ts meta msize oip => delete_partial s (mk_rec k ts true meta msize 0 0) oip s'
+  | ORestoreActive => restore_partial s s'
+  | OCreateActive => create_partial s s'
+  | _ => False      (* close_active: the only await precedes every effect; reads, counts: no effect *)
+  end.
+
+Definition cancel_outcomes (s : storage) (o : op) (s' : storage) : Prop :=
+  public_op o = true /\
+  (s' = s \/ s' = fst (step K cfg s o) \/ (s_open s = true /\ partial_outcomes s o s')).
+
+End K.
